@@ -31,11 +31,13 @@ X_ERR = {
 def x_src(v, via="const"):
     if via == "read":
         return "proc main() is 0(2(0))\n"
+    if via == "class":
+        return "var c;\nproc main() is { c := 2(0); if c < 0 then 0(9) else if c < 128 then 0(1) else if c = 255 then 0(3) else 0(2) }\n"
     return "proc main() is 0(%s)\n" % (str(v) if v >= 0 else "-%d" % (-v))
 
 
 def stdin_of(inv):
-    if inv.get("via") == "read":
+    if inv.get("via") in ("read", "class"):
         return b"" if inv["xv"] == 255 else bytes([inv["xv"]])
     return b""
 
